@@ -414,7 +414,7 @@ pub fn sx(e: &E) -> String {
         E::Neg(x) => format!("(neg {})", sx(x)),
         E::Ite(c, t, el) => format!("(ite {} {} {})", sx(c), sblk(t), sblk(el)),
         E::If1(c, t) => format!("(if1 {} {})", sx(c), sblk(t)),
-        E::Match(s, _, arms) => {
+        E::Match(s, is_opt, arms) => {
             let a: Vec<String> = arms
                 .iter()
                 .map(|a| match &a.guard {
@@ -422,7 +422,7 @@ pub fn sx(e: &E) -> String {
                     Some(g) => format!("(armg {} {} {})", spat(&a.pat), sx(g), sblk(&a.body)),
                 })
                 .collect();
-            format!("(match {} {})", sx(s), a.join(" "))
+            format!("(match {} {} {})", if *is_opt { "opt" } else { "enm" }, sx(s), a.join(" "))
         }
         E::While(c, b) => format!("(while {} {})", sx(c), sblk(b)),
         E::For(x, l, b) => format!("(for {x} {} {})", sx(l), sblk(b)),
